@@ -122,6 +122,14 @@ func (t *KernMethod) TransferGovernTokens(ctx contract.KContext) (*contract.Resp
 	}
 	senderBalance.TotalBalance.Sub(senderBalance.TotalBalance, amount)
 
+	// 更新sender余额 (before the receiver's record is read: sender and receiver may be the same account)
+	senderBalanceBuf, _ := json.Marshal(senderBalance)
+	senderKey := utils.MakeAccountBalanceKey(sender)
+	err = ctx.Put(utils.GetGovernTokenBucket(), []byte(senderKey), senderBalanceBuf)
+	if err != nil {
+		return nil, fmt.Errorf("transfer gov tokens failed, update sender's balance")
+	}
+
 	// 设置receiver余额
 	receiverBalance := utils.NewGovernTokenBalance()
 	receiverBalance.TotalBalance.Set(amount)
@@ -133,14 +141,6 @@ func (t *KernMethod) TransferGovernTokens(ctx contract.KContext) (*contract.Resp
 		receiverBalanceOld := &utils.GovernTokenBalance{}
 		json.Unmarshal(receiverBalanceBuf, receiverBalanceOld)
 		receiverBalance.TotalBalance.Add(receiverBalance.TotalBalance, receiverBalanceOld.TotalBalance)
-	}
-
-	// 更新sender余额
-	senderBalanceBuf, _ := json.Marshal(senderBalance)
-	senderKey := utils.MakeAccountBalanceKey(sender)
-	err = ctx.Put(utils.GetGovernTokenBucket(), []byte(senderKey), senderBalanceBuf)
-	if err != nil {
-		return nil, fmt.Errorf("transfer gov tokens failed, update sender's balance")
 	}
 
 	// 更新receiver余额
